@@ -4,7 +4,7 @@ from dataclasses import dataclass
 from typing import Self
 
 from ..ast.fpyast import *
-from ..ast.visitor import Visitor
+from ..ast.visitor import DefaultVisitor, Visitor
 from .live_vars import LiveVars
 
 
@@ -79,6 +79,44 @@ class _Ctx:
         return _Ctx(_Env(), False)
 
 
+class _BoundNames(DefaultVisitor):
+    """The names a function binds in its own scope: arguments and the targets
+    of assignments, loops and `with ... as`.  A comprehension's targets are
+    local to the comprehension and are not among them."""
+
+    def __init__(self):
+        self.names: set[NamedId] = set()
+
+    def _bind(self, binding: Id | TupleBinding):
+        match binding:
+            case NamedId():
+                self.names.add(binding)
+            case TupleBinding():
+                for elt in binding.elts:
+                    self._bind(elt)
+
+    def _visit_assign(self, stmt: Assign, ctx: None):
+        self._bind(stmt.target)
+        super()._visit_assign(stmt, ctx)
+
+    def _visit_for(self, stmt: ForStmt, ctx: None):
+        self._bind(stmt.target)
+        super()._visit_for(stmt, ctx)
+
+    def _visit_context(self, stmt: ContextStmt, ctx: None):
+        self._bind(stmt.target)
+        super()._visit_context(stmt, ctx)
+
+
+def bound_names(func: FuncDef) -> set[NamedId]:
+    """The names `func` binds in its own scope (see :class:`_BoundNames`)."""
+    v = _BoundNames()
+    for arg in func.args:
+        v._bind(arg.name)
+    v._visit_block(func.body, None)
+    return v.names
+
+
 class SyntaxCheckInstance(Visitor):
     """Single-use instance of syntax checking"""
     func: FuncDef
@@ -99,6 +137,7 @@ class SyntaxCheckInstance(Visitor):
         self.ignore_unknown = ignore_unknown
         self.allow_wildcard = allow_wildcard
         self.free_var_args = set()
+        self.bound = bound_names(func)
 
     def analyze(self):
         self._visit_function(self.func, _Ctx.default())
@@ -203,7 +242,7 @@ class SyntaxCheckInstance(Visitor):
                 # an unknown callee may be a name of the enclosing Python
                 # scope; one the function binds itself is a variable like any
                 # other and has to be defined on every path to the call
-                local = e.func.name in ctx.env
+                local = e.func.name in ctx.env or e.func.name in self.bound
                 self._mark_use(e.func.name, ctx.env, ignore_missing=self.ignore_unknown and not local)
             case Attribute():
                 self._visit_attribute(e.func, _Ctx(ctx.env, True))
